@@ -7,6 +7,7 @@ import Mathlib.Algebra.BigOperators.Group.List.Basic
 import Mathlib.Tactic.Linarith
 import Mathlib.Tactic.Ring
 import Mathlib.Tactic.FieldSimp
+import Mathlib.Data.List.Nodup
 import Strengths.Model.Coarsegrain
 import Strengths.Proofs.Units
 import Strengths.Proofs.Trajectory
@@ -1584,5 +1585,497 @@ theorem mem_fine_edges (g : GridShape) (h : Rat) (envs : List Int) (hrefl : (g.p
     · right
       rw [if_pos (by omega)]
       simp
+
+
+/-! ## the identity map -/
+
+/-- nested `for a in range(m): for b in range(L)` = one loop over `range(m·L)` with `a = k / L`, `b = k % L` -/
+theorem range_flatMap_map {α} (m L : Nat) (f : Nat → Nat → α) :
+    (List.range m).flatMap (fun a => (List.range L).map fun b => f a b) =
+      (List.range (m * L)).map fun k => f (k / L) (k % L) := by
+  induction m with
+  | zero => simp
+  | succ m ih =>
+    rw [List.range_succ, List.flatMap_append, ih, Nat.succ_mul, List.range_add, List.map_append]
+    congr 1
+    simp only [List.flatMap_cons, List.flatMap_nil, List.append_nil, List.map_map]
+    apply List.map_congr_left
+    intro b hb
+    have hb' := List.mem_range.1 hb
+    have hL : 0 < L := by omega
+    simp only [Function.comp]
+    have h1 : (m * L + b) / L = m := by
+      rw [Nat.add_comm, Nat.add_mul_div_right _ _ hL, Nat.div_eq_of_lt hb']; simp
+    have h2 : (m * L + b) % L = b := by
+      rw [Nat.add_comm, Nat.add_mul_mod_self_right, Nat.mod_eq_of_lt hb']
+    rw [h1, h2]
+
+/-- coordinates of the cell with linear index `K` -/
+def decode (g : GridShape) (K : Nat) : Nat × Nat × Nat := ((K % (g.h * g.w)) % g.w, (K % (g.h * g.w)) / g.w, K / (g.h * g.w))
+
+theorem gridCoords_eq (g : GridShape) : gridCoords g = (List.range (g.d * (g.h * g.w))).map (decode g) := by
+  unfold gridCoords
+  have inner : ∀ z : Nat, ((List.range g.h).flatMap fun y => (List.range g.w).map fun x => (x, y, z)) =
+      (List.range (g.h * g.w)).map fun k => (k % g.w, k / g.w, z) := by
+    intro z
+    exact range_flatMap_map g.h g.w (fun y x => (x, y, z))
+  simp only [inner]
+  rw [range_flatMap_map g.d (g.h * g.w) (fun z k => (k % g.w, k / g.w, z))]
+  rfl
+
+theorem decode_lt (g : GridShape) (K : Nat) (hK : K < g.d * (g.h * g.w)) :
+    (decode g K).1 < g.w ∧ (decode g K).2.1 < g.h ∧ (decode g K).2.2 < g.d := by
+  have hw : 0 < g.w := by
+    rcases Nat.eq_zero_or_pos g.w with h | h
+    · rw [h] at hK; simp at hK
+    · exact h
+  have hh : 0 < g.h := by
+    rcases Nat.eq_zero_or_pos g.h with h | h
+    · rw [h] at hK; simp at hK
+    · exact h
+  have hhw : 0 < g.h * g.w := Nat.mul_pos hh hw
+  refine ⟨Nat.mod_lt _ hw, ?_, ?_⟩
+  · simp only [decode]
+    rw [Nat.div_lt_iff_lt_mul hw]
+    exact Nat.mod_lt _ hhw
+  · simp only [decode]
+    rw [Nat.div_lt_iff_lt_mul hhw]
+    exact hK
+
+theorem index_decode (g : GridShape) (K : Nat) :
+    (decode g K).1 + (decode g K).2.1 * g.w + (decode g K).2.2 * g.w * g.h = K := by
+  simp only [decode]
+  have h1 := Nat.mod_add_div (K % (g.h * g.w)) g.w
+  have h2 := Nat.mod_add_div K (g.h * g.w)
+  calc K % (g.h * g.w) % g.w + K % (g.h * g.w) / g.w * g.w + K / (g.h * g.w) * g.w * g.h
+      = (K % (g.h * g.w) % g.w + g.w * (K % (g.h * g.w) / g.w)) + (g.h * g.w) * (K / (g.h * g.w)) := by ring
+    _ = K := by rw [h1, h2]
+
+theorem decode_index (g : GridShape) (x y z : Nat) (hx : x < g.w) (hy : y < g.h) :
+    decode g (x + y * g.w + z * g.w * g.h) = (x, y, z) := by
+  have hxy : x + y * g.w < g.h * g.w := by
+    have := mul_add_lt hy hx
+    rw [Nat.add_comm]; exact this
+  have hK : x + y * g.w + z * g.w * g.h = (x + y * g.w) + (g.h * g.w) * z := by ring
+  simp only [decode]
+  rw [hK, Nat.add_mul_mod_self_left, Nat.mod_eq_of_lt hxy, Nat.add_mul_div_left _ _ (by omega), Nat.div_eq_of_lt hxy]
+  have h1 : (x + y * g.w) % g.w = x := by rw [Nat.add_mul_mod_self_right, Nat.mod_eq_of_lt hx]
+  have h2 : (x + y * g.w) / g.w = y := by
+    rw [Nat.add_mul_div_right _ _ (by omega), Nat.div_eq_of_lt hx]; simp
+  rw [h1, h2]; simp
+
+theorem size_eq (g : GridShape) : g.size = g.d * (g.h * g.w) := by
+  simp only [GridShape.size]; ring
+
+/-- the edges appended for the cell with linear index `K` -/
+def cellEdges (g : GridShape) (sfc dst : Rat) (K : Nat) : List GEdge :=
+  (if (decode g K).1 + 1 < g.w then [⟨(K : Int), ((K + 1 : Nat) : Int), sfc, dst⟩] else []) ++
+  (if (decode g K).2.1 + 1 < g.h then [⟨(K : Int), ((K + g.w : Nat) : Int), sfc, dst⟩] else []) ++
+  (if (decode g K).2.2 + 1 < g.d then [⟨(K : Int), ((K + g.w * g.h : Nat) : Int), sfc, dst⟩] else [])
+
+theorem faceEdges_decode (g : GridShape) (sfc dst : Rat) (K : Nat) (hK : K < g.d * (g.h * g.w)) :
+    faceEdges g sfc dst (decode g K) = cellEdges g sfc dst K := by
+  obtain ⟨hx, hy, hz⟩ := decode_lt g K hK
+  have hidx := index_decode g K
+  generalize hdec : decode g K = c at *
+  obtain ⟨x, y, z⟩ := c
+  simp only at hx hy hz hidx
+  have h0 : gci g x y z = (K : Int) := by rw [gci_inside g x y z hx hy hz, hidx]
+  unfold faceEdges cellEdges
+  simp only [hdec]
+  congr 1
+  · congr 1
+    · by_cases h1 : x + 1 < g.w
+      · have h1' : (x : Int) < (g.w : Int) - 1 := by omega
+        have hj : gci g (x + 1 : Nat) y z = ((K + 1 : Nat) : Int) := by
+          rw [gci_inside g (x + 1) y z h1 hy hz]; congr 1; omega
+        simp only [h1, h1', if_true, h0]
+        rw [show ((x : Int) + 1) = ((x + 1 : Nat) : Int) by push_cast; rfl, hj]
+      · have h1' : ¬ ((x : Int) < (g.w : Int) - 1) := by omega
+        simp [h1, h1']
+    · by_cases h1 : y + 1 < g.h
+      · have h1' : (y : Int) < (g.h : Int) - 1 := by omega
+        have hj : gci g x (y + 1 : Nat) z = ((K + g.w : Nat) : Int) := by
+          rw [gci_inside g x (y + 1) z hx h1 hz]; congr 1
+          rw [← hidx]; ring
+        simp only [h1, h1', if_true, h0]
+        rw [show ((y : Int) + 1) = ((y + 1 : Nat) : Int) by push_cast; rfl, hj]
+      · have h1' : ¬ ((y : Int) < (g.h : Int) - 1) := by omega
+        simp [h1, h1']
+  · by_cases h1 : z + 1 < g.d
+    · have h1' : (z : Int) < (g.d : Int) - 1 := by omega
+      have hj : gci g x y (z + 1 : Nat) = ((K + g.w * g.h : Nat) : Int) := by
+        rw [gci_inside g x y (z + 1) hx hy h1]; congr 1
+        rw [← hidx]; ring
+      simp only [h1, h1', if_true, h0]
+      rw [show ((z : Int) + 1) = ((z + 1 : Nat) : Int) by push_cast; rfl, hj]
+    · have h1' : ¬ ((z : Int) < (g.d : Int) - 1) := by omega
+      simp [h1, h1']
+
+/-- the fine edge list of a reflecting grid, cell by cell in index order -/
+theorem fine_edges_by_index (g : GridShape) (h : Rat) (envs : List Int) (hrefl : (g.px || g.py || g.pz) = false) :
+    (gridToGraph g h envs).edges = (List.range (g.d * (g.h * g.w))).flatMap (cellEdges g (h * h) h) := by
+  simp only [Bool.or_eq_false_iff] at hrefl
+  obtain ⟨⟨h1, h2⟩, h3⟩ := hrefl
+  simp only [gridToGraph, periodicEdges, h1, h2, h3, Bool.false_eq_true, if_false, List.append_nil]
+  rw [gridCoords_eq, List.flatMap_map]
+  apply List.flatMap_congr
+  intro K hK
+  exact faceEdges_decode g (h * h) h K (List.mem_range.1 hK)
+
+theorem index_lt (g : GridShape) (x y z : Nat) (hx : x < g.w) (hy : y < g.h) (hz : z < g.d) :
+    x + y * g.w + z * g.w * g.h < g.d * (g.h * g.w) := by
+  have h1 : y * g.w + x < g.h * g.w := mul_add_lt hy hx
+  have h2 : z * (g.h * g.w) + (y * g.w + x) < g.d * (g.h * g.w) := mul_add_lt hz h1
+  have : z * g.w * g.h = z * (g.h * g.w) := by ring
+  omega
+
+/-- the neighbours of cell `K` named by its edges: index, and coordinates one step along one axis -/
+theorem cellEdges_spec (g : GridShape) (sfc dst : Rat) (K : Nat) (hK : K < g.d * (g.h * g.w)) (e : GEdge)
+    (he : e ∈ cellEdges g sfc dst K) :
+    e.i = (K : Int) ∧ e.surface = sfc ∧ e.dist = dst ∧ ∃ J : Nat, e.j = (J : Int) ∧ K < J ∧ J < g.d * (g.h * g.w) ∧
+      (decode g J = ((decode g K).1 + 1, (decode g K).2.1, (decode g K).2.2) ∨
+       decode g J = ((decode g K).1, (decode g K).2.1 + 1, (decode g K).2.2) ∨
+       decode g J = ((decode g K).1, (decode g K).2.1, (decode g K).2.2 + 1)) := by
+  obtain ⟨hx, hy, hz⟩ := decode_lt g K hK
+  have hidx := index_decode g K
+  have hw : 0 < g.w := by omega
+  have hh : 0 < g.h := by omega
+  simp only [cellEdges, List.mem_append] at he
+  rcases he with (he | he) | he
+  · split at he
+    · rename_i h1
+      simp only [List.mem_singleton] at he
+      subst he
+      refine ⟨rfl, rfl, rfl, K + 1, rfl, by omega, ?_, Or.inl ?_⟩
+      · have := index_lt g ((decode g K).1 + 1) (decode g K).2.1 (decode g K).2.2 h1 hy hz
+        omega
+      · have := decode_index g ((decode g K).1 + 1) (decode g K).2.1 (decode g K).2.2 h1 hy
+        rw [← this]; congr 1; omega
+    · simp at he
+  · split at he
+    · rename_i h1
+      simp only [List.mem_singleton] at he
+      subst he
+      have hKw : K + g.w = (decode g K).1 + ((decode g K).2.1 + 1) * g.w + (decode g K).2.2 * g.w * g.h := by
+        rw [Nat.add_mul]; omega
+      refine ⟨rfl, rfl, rfl, K + g.w, rfl, by omega, ?_, Or.inr (Or.inl ?_)⟩
+      · rw [hKw]; exact index_lt g _ _ _ hx h1 hz
+      · rw [hKw]; exact decode_index g _ _ _ hx h1
+    · simp at he
+  · split at he
+    · rename_i h1
+      simp only [List.mem_singleton] at he
+      subst he
+      have hKw : K + g.w * g.h = (decode g K).1 + (decode g K).2.1 * g.w + ((decode g K).2.2 + 1) * g.w * g.h := by
+        rw [Nat.add_mul, Nat.add_mul, Nat.one_mul]; omega
+      have hpos : 0 < g.w * g.h := Nat.mul_pos hw hh
+      refine ⟨rfl, rfl, rfl, K + g.w * g.h, rfl, by omega, ?_, Or.inr (Or.inr ?_)⟩
+      · rw [hKw]; exact index_lt g _ _ _ hx hy h1
+      · rw [hKw]; exact decode_index g _ _ _ hx hy
+    · simp at he
+
+theorem cellEdges_keys_nodup (g : GridShape) (sfc dst : Rat) (K : Nat) (hK : K < g.d * (g.h * g.w)) :
+    ((cellEdges g sfc dst K).map edgeKey).Nodup := by
+  obtain ⟨hx, hy, hz⟩ := decode_lt g K hK
+  have hw : 0 < g.w := by omega
+  have hh : 0 < g.h := by omega
+  have hm1 : g.w ≤ g.w * g.h := Nat.le_mul_of_pos_right _ hh
+  have hm2 : 2 ≤ g.h → g.w * 2 ≤ g.w * g.h := fun h => Nat.mul_le_mul_left _ h
+  unfold cellEdges
+  by_cases h1 : (decode g K).1 + 1 < g.w <;> by_cases h2 : (decode g K).2.1 + 1 < g.h <;>
+    by_cases h3 : (decode g K).2.2 + 1 < g.d <;>
+    simp only [h1, h2, h3, if_true, if_false, List.nil_append, List.append_nil, List.cons_append, List.map_cons, List.map_nil,
+      edgeKey, List.nodup_cons, List.mem_cons, List.mem_singleton, List.not_mem_nil, Prod.mk.injEq, true_and, not_or,
+      List.nodup_nil, and_true, not_false_eq_true, or_false]
+  all_goals (have := hm2; omega)
+
+theorem fine_keys_nodup (g : GridShape) (sfc dst : Rat) :
+    (((List.range (g.d * (g.h * g.w))).flatMap (cellEdges g sfc dst)).map edgeKey).Nodup := by
+  rw [List.map_flatMap, List.nodup_flatMap]
+  constructor
+  · intro K hK
+    exact cellEdges_keys_nodup g sfc dst K (List.mem_range.1 hK)
+  · -- edges of different cells start at different cells
+    have hp : List.Pairwise (fun a b => a < b) (List.range (g.d * (g.h * g.w))) := List.pairwise_lt_range
+    have hmem : ∀ K, K ∈ List.range (g.d * (g.h * g.w)) → True := fun _ _ => trivial
+    refine List.Pairwise.imp_of_mem ?_ hp
+    intro a b ha hb hab
+    simp only [Function.onFun]
+    intro c hca hcb
+    obtain ⟨ea, hea, rfl⟩ := List.mem_map.1 hca
+    obtain ⟨eb, heb, hk⟩ := List.mem_map.1 hcb
+    have h1 := (cellEdges_spec g sfc dst a (List.mem_range.1 ha) ea hea).1
+    have h2 := (cellEdges_spec g sfc dst b (List.mem_range.1 hb) eb heb).1
+    simp only [edgeKey, Prod.mk.injEq] at hk
+    omega
+
+/-- with the identity map nothing is merged: the loop copies the fine edges (distance still unset) -/
+theorem foldl_addEdge_identity (n : Nat) (es acc : List GEdge)
+    (hval : ∀ e ∈ es, ∃ I J : Nat, e.i = (I : Int) ∧ e.j = (J : Int) ∧ I < J ∧ J < n)
+    (hnd : ((acc ++ es.map fun e => (⟨e.i, e.j, e.surface, 0⟩ : GEdge)).map edgeKey).Nodup) :
+    es.foldl (addEdge ((List.range n).map fun (i : Nat) => (i : Int))) acc =
+      acc ++ es.map fun e => (⟨e.i, e.j, e.surface, 0⟩ : GEdge) := by
+  induction es generalizing acc with
+  | nil => simp
+  | cons e r ih =>
+    obtain ⟨I, J, hi, hj, hIJ, hJn⟩ := hval e (by simp)
+    have hgi : ((List.range n).map fun (i : Nat) => (i : Int)).getD e.i.toNat 0 = (I : Int) := by
+      rw [hi]; simp [List.getD_eq_getElem?_getD, List.getElem?_map, List.getElem?_range, (by omega : I < n)]
+    have hgj : ((List.range n).map fun (i : Nat) => (i : Int)).getD e.j.toNat 0 = (J : Int) := by
+      rw [hj]; simp [List.getD_eq_getElem?_getD, List.getElem?_map, List.getElem?_range, hJn]
+    have hstep : addEdge ((List.range n).map fun (i : Nat) => (i : Int)) acc e = acc ++ [⟨e.i, e.j, e.surface, 0⟩] := by
+      rw [addEdge_eq_G, hgi, hgj]
+      unfold addEdgeG
+      have h1 : ((I : Int) == (J : Int)) = false := by simp only [beq_eq_false_iff_ne, ne_eq]; omega
+      have h2 : ((I : Int) == -1 || (J : Int) == -1) = false := by
+        simp only [Bool.or_eq_false_iff, beq_eq_false_iff_ne, ne_eq]; omega
+      have hmin : min (I : Int) (J : Int) = I := by omega
+      have hmax : max (I : Int) (J : Int) = J := by omega
+      rw [h1, h2, hmin, hmax]
+      simp only [Bool.false_eq_true, if_false]
+      have hno : (acc.any fun o => o.i == (I : Int) && o.j == (J : Int)) = false := by
+        rw [List.any_eq_false]
+        intro o ho hmatch
+        simp only [Bool.and_eq_true, beq_iff_eq] at hmatch
+        simp only [List.map_append, List.map_cons] at hnd
+        have hdis := (List.nodup_append.1 hnd).2.2
+        exact hdis (edgeKey o) (List.mem_map_of_mem ho) (edgeKey o) (by
+          simp only [edgeKey, List.mem_cons, Prod.mk.injEq]
+          left; rw [hmatch.1, hmatch.2, hi, hj]; exact ⟨rfl, rfl⟩) rfl
+      rw [hno]
+      simp [hi, hj]
+    simp only [List.foldl_cons, hstep]
+    have hrec := ih (acc ++ [(⟨e.i, e.j, e.surface, 0⟩ : GEdge)]) (fun e' he' => hval e' (by simp [he']))
+      (by simpa using hnd)
+    rw [hrec]
+    simp
+
+/-- the identity index map of `n` cells -/
+def idMap (n : Nat) : List (Option Int) := (List.range n).map fun (i : Nat) => some (i : Int)
+
+theorem idMap_ints (n : Nat) : (idMap n).filterMap id = (List.range n).map fun (i : Nat) => (i : Int) := by
+  simp [idMap, List.filterMap_map]
+
+theorem list_eq_map_range (l : List Int) : l = (List.range l.length).map fun i => l.getD i 0 := by
+  apply List.ext_getElem?
+  intro i
+  by_cases hi : i < l.length
+  · simp [List.getElem?_map, List.getElem?_range, hi, List.getD_eq_getElem?_getD]
+  · simp [List.getElem?_map, List.getElem?_range, hi, List.getElem?_eq_none (Nat.le_of_not_lt hi)]
+
+theorem idMap_valid (n : Nat) (hn : 0 < n) (envs : List Int) (hlen : envs.length = n) : ValidMap (idMap n) envs := by
+  refine ⟨by simp [idMap, hlen], by simp [idMap], ?_, ?_, ?_, ?_⟩
+  · rw [idMap_ints]; intro x hx
+    obtain ⟨i, _, rfl⟩ := List.mem_map.1 hx
+    omega
+  · rw [idMap_ints]
+    exact ⟨0, List.mem_map.2 ⟨0, List.mem_range.2 hn, rfl⟩, le_refl 0⟩
+  · rw [idMap_ints]
+    rintro k ⟨x, hx, hkx⟩
+    obtain ⟨i, hi, rfl⟩ := List.mem_map.1 hx
+    have := List.mem_range.1 hi
+    exact List.mem_map.2 ⟨k, List.mem_range.2 (by omega), rfl⟩
+  · rw [idMap_ints]
+    have he := list_eq_map_range envs
+    rw [hlen] at he
+    rw [he, List.zip_map', NoMix, List.pairwise_map]
+    refine List.Pairwise.imp ?_ (List.pairwise_lt_range (n := n))
+    intro a b hab heq
+    simp only at heq
+    omega
+
+theorem nGroups_idMap (n : Nat) (hn : 0 < n) : nGroups (idMap n) = n := by
+  unfold nGroups
+  rw [idMap_ints]
+  have hne : ((List.range n).map fun (i : Nat) => (i : Int)) ≠ [] := by
+    intro h
+    have := congrArg List.length h
+    simp at this; omega
+  obtain ⟨mx, hmx⟩ := listMax_isSome hne
+  have hmem := listMax_mem hmx
+  obtain ⟨i, hi, rfl⟩ := List.mem_map.1 hmem
+  have hlast := listMax_ge hmx ((n - 1 : Nat) : Int) (List.mem_map.2 ⟨n - 1, List.mem_range.2 (by omega), rfl⟩)
+  have := List.mem_range.1 hi
+  rw [hmx]
+  simp only [Option.getD_some]
+  omega
+
+/-- identity pairs: slot `k` receives exactly the `k`-th value -/
+theorem slotSum_identity (n k : Nat) (hk : k < n) (f : Nat → Rat) :
+    slotSum k ((List.range n).map fun (i : Nat) => ((i : Int), f i)) = f k := by
+  rw [slotSum_map]
+  have : (fun (x : Nat) => if (cgKeep ((x : Int), f x).1 && ((x : Int), f x).1.toNat == k) = true then ((x : Int), f x).2 else 0) =
+      fun x => if x = k then f x else 0 := by
+    funext x
+    have hkeep : cgKeep (x : Int) = true := by simp only [cgKeep, bne_iff_ne, ne_eq]; omega
+    simp [hkeep]
+  rw [this, sum_range_ite_eq n k hk]
+
+theorem zip_identity (n : Nat) (vals : List Rat) (hl : vals.length = n) :
+    ((List.range n).map fun (i : Nat) => (i : Int)).zip vals = (List.range n).map fun (i : Nat) => ((i : Int), vals.getD i 0) := by
+  have hv : vals = (List.range n).map fun i => vals.getD i 0 := by
+    apply List.ext_getElem?
+    intro i
+    by_cases hi : i < n
+    · simp [List.getElem?_map, List.getElem?_range, hi, List.getD_eq_getElem?_getD, hl]
+    · simp [List.getElem?_map, List.getElem?_range, hi, List.getElem?_eq_none (by omega : vals.length ≤ i)]
+  conv_lhs => rw [hv]
+  rw [List.zip_map']
+
+theorem scatterSet_length (n : Nat) (pairs : List (Int × Int)) : (scatterSet n pairs).length = n := by
+  rw [scatterSet_eq]
+  have : ∀ (l : List (Int × Int)) (acc : List Int), (l.foldl setStep acc).length = acc.length := by
+    intro l
+    induction l with
+    | nil => intro acc; rfl
+    | cons p r ih => intro acc; simp [List.foldl_cons, ih, setStep_length]
+  rw [this]; simp
+
+theorem centroid_identity {g : GridShape} {h : Rat} {uv ug : Sys} {envs : List Int} {sp : CgSpace}
+    (hpos : 0 < g.size) (hok : coarsegrainGrid g h uv ug envs (idMap g.size) = .ok sp) (k : Nat) (hk : k < g.size) :
+    sp.cx.getD k 0 = ((decode g k).1 : Rat) * h ∧ sp.cy.getD k 0 = ((decode g k).2.1 : Rat) * h ∧
+    sp.cz.getD k 0 = ((decode g k).2.2 : Rat) * h := by
+  have hng := nGroups_idMap g.size hpos
+  obtain ⟨hx, hy, hz⟩ := cg_centroid_aux hok k (by rw [hng]; exact hk)
+  have hn := size_eq g
+  have hcnt : slotSum k (((idMap g.size).filterMap id).map fun gI => (gI, (1 : Rat))) = 1 := by
+    rw [idMap_ints, List.map_map]
+    exact slotSum_identity g.size k hk (fun _ => 1)
+  have hco : ∀ f : Nat × Nat × Nat → Rat,
+      slotSum k (((idMap g.size).filterMap id).zip ((gridCoords g).map f)) = f (decode g k) := by
+    intro f
+    rw [idMap_ints, zip_identity g.size _ (by rw [gridCoords_eq, ← hn]; simp), slotSum_identity g.size k hk]
+    rw [gridCoords_eq, ← hn]
+    simp [List.getD_eq_getElem?_getD, List.getElem?_map, List.getElem?_range, hk]
+  rw [hcnt] at hx hy hz
+  rw [hco (fun c => (c.1 : Rat) * h)] at hx
+  rw [hco (fun c => (c.2.1 : Rat) * h)] at hy
+  rw [hco (fun c => (c.2.2 : Rat) * h)] at hz
+  simp only [List.getD_eq_getElem?_getD, hx, hy, hz]
+  simp
+
+theorem identity_map_aux (g : GridShape) (h : Rat) (uv ug : Sys) (envs : List Int)
+    (hrefl : (g.px || g.py || g.pz) = false) (hpos : 0 < g.size) (hlen : envs.length = g.size) (henv : ∀ e ∈ envs, e ≠ -2) :
+    ∃ sp, coarsegrainGrid g h uv ug envs (idMap g.size) = .ok sp ∧
+      sp.vols = (gridToGraph g h envs).vols.map (· * convFactor uv ug Dim.volume) ∧
+      sp.envs = (gridToGraph g h envs).envs ∧
+      sp.edges.map (fun e => (e.i, e.j, e.surface, e.dist)) =
+        (gridToGraph g h envs).edges.map (fun e => (e.i, e.j, e.surface, e.dist * e.dist)) := by
+  have hn := size_eq g
+  have hchk : checkIndexMap (idMap g.size) envs = .ok () :=
+    (valid_iff_aux _ envs henv).2 (idMap_valid g.size hpos envs hlen)
+  have hex : ∃ sp, coarsegrainGrid g h uv ug envs (idMap g.size) = .ok sp := by
+    unfold coarsegrainGrid
+    rw [if_neg (by simp [hrefl])]
+    simp only [gridToGraph] at hchk ⊢
+    simp only [hchk]
+    exact ⟨_, rfl⟩
+  obtain ⟨sp, hok⟩ := hex
+  have hng := nGroups_idMap g.size hpos
+  obtain ⟨_, _, hv, hen⟩ := coarsegrainGrid_ok hok
+  obtain ⟨hedges, hcnt, hcx, hcy, hcz⟩ := coarsegrainGrid_geometry hok
+  refine ⟨sp, hok, ?_, ?_, ?_⟩
+  · -- volumes
+    rw [hv]
+    change scatterAdd (nGroups (idMap g.size)) _ = _
+    rw [hng, idMap_ints]
+    simp only [gridToGraph]
+    apply List.ext_getElem?
+    intro k
+    by_cases hk : k < g.size
+    · rw [scatterAdd_get _ _ _ hk, zip_identity g.size _ (by simp), slotSum_identity g.size k hk]
+      simp [List.getD_eq_getElem?_getD, hk]
+    · have h1 : (scatterAdd g.size (((List.range g.size).map fun (i : Nat) => (i : Int)).zip
+          ((List.replicate g.size (h * h * h)).map (· * convFactor uv ug Dim.volume)))).length = g.size := scatterAdd_length _ _
+      rw [List.getElem?_eq_none (by omega), List.getElem?_eq_none (by simp; omega)]
+  · -- environments
+    simp only [gridToGraph]
+    apply List.ext_getElem?
+    intro k
+    have hl : sp.envs.length = g.size := by
+      rw [hen]
+      change (scatterSet (nGroups (idMap g.size)) _).length = _
+      rw [scatterSet_length, hng]
+    by_cases hk : k < g.size
+    · have hmem : ((k : Int), envs.getD k 0) ∈ ((idMap g.size).filterMap id).zip envs := by
+        rw [idMap_ints]
+        apply List.mem_of_getElem? (i := k)
+        rw [List.getElem?_zip_eq_some]
+        constructor
+        · simp [List.getElem?_map, List.getElem?_range, hk]
+        · simp only [List.getD_eq_getElem?_getD]
+          rw [List.getElem?_eq_getElem (by omega)]
+          simp
+      have := cg_env_aux henv hok _ hmem (by simp only; omega)
+      simp only [Int.toNat_natCast] at this
+      rw [this, List.getD_eq_getElem?_getD, List.getElem?_eq_getElem (by omega)]
+      simp
+    · rw [List.getElem?_eq_none (by omega), List.getElem?_eq_none (by omega)]
+  · -- edges
+    have hfine := fine_edges_by_index g h envs hrefl
+    have hval : ∀ e ∈ (gridToGraph g h envs).edges, ∃ K J : Nat, e.i = (K : Int) ∧ e.j = (J : Int) ∧ K < J ∧ J < g.size ∧
+        e.surface = h * h ∧ e.dist = h ∧
+        (decode g J = ((decode g K).1 + 1, (decode g K).2.1, (decode g K).2.2) ∨
+         decode g J = ((decode g K).1, (decode g K).2.1 + 1, (decode g K).2.2) ∨
+         decode g J = ((decode g K).1, (decode g K).2.1, (decode g K).2.2 + 1)) := by
+      intro e he
+      rw [hfine] at he
+      obtain ⟨K, hK, heK⟩ := List.mem_flatMap.1 he
+      obtain ⟨h1, h2, h3, J, h4, h5, h6, h7⟩ := cellEdges_spec g (h * h) h K (List.mem_range.1 hK) e heK
+      exact ⟨K, J, h1, h4, h5, by rw [hn]; exact h6, h2, h3, h7⟩
+    have hfold : (gridToGraph g h envs).edges.foldl (addEdge ((idMap g.size).filterMap id)) [] =
+        (gridToGraph g h envs).edges.map fun e => (⟨e.i, e.j, e.surface, 0⟩ : GEdge) := by
+      rw [idMap_ints]
+      have := foldl_addEdge_identity g.size (gridToGraph g h envs).edges []
+        (fun e he => by
+          obtain ⟨K, J, h1, h2, h3, h4, _⟩ := hval e he
+          exact ⟨K, J, h1, h2, h3, h4⟩)
+        (by
+          simp only [List.nil_append, List.map_map]
+          have : (edgeKey ∘ fun e => (⟨e.i, e.j, e.surface, 0⟩ : GEdge)) = edgeKey := by funext e; rfl
+          rw [this, hfine]
+          exact fine_keys_nodup g (h * h) h)
+      simpa using this
+    rw [hedges, hfold]
+    simp only [List.map_map]
+    apply List.map_congr_left
+    intro e he
+    obtain ⟨K, J, h1, h2, h3, h4, h5, h6, h7⟩ := hval e he
+    have hcK := centroid_identity hpos hok K (by omega)
+    have hcJ := centroid_identity hpos hok J h4
+    simp only [Function.comp, h1, h2, Int.toNat_natCast, hcK.1, hcK.2.1, hcK.2.2, hcJ.1, hcJ.2.1, hcJ.2.2, h6, Prod.mk.injEq, true_and]
+    rcases h7 with h7 | h7 | h7 <;>
+    · rw [h7]
+      simp only [sq]
+      push_cast
+      ring
+
+theorem identity_state_aux {g : GridShape} {h : Rat} {uv ug : Sys} {envs : List Int} {ns : Nat} {state : List Rat} {chem : List Int}
+    {c : CgSystem} (hpos : 0 < g.size) (hok : coarsegrainSystem g h uv ug envs ns state chem (idMap g.size) = .ok c)
+    (s k : Nat) (hs : s < ns) (hk : k < g.size) :
+    c.state[s * g.size + k]? = some (state.getD (s * g.size + k) 0) := by
+  have hng := nGroups_idMap g.size hpos
+  have := cg_group_amount_aux hok s k hs (by rw [hng]; exact hk)
+  rw [hng] at this
+  rw [this, idMap_ints]
+  congr 1
+  have hz : ((List.range g.size).map fun (i : Nat) => (i : Int)).zipIdx = (List.range g.size).map fun (i : Nat) => ((i : Int), i) := by
+    apply List.ext_getElem?
+    intro i
+    by_cases hi : i < g.size
+    · simp [List.getElem?_zipIdx, List.getElem?_range, hi]
+    · simp [List.getElem?_zipIdx, List.getElem?_range, hi]
+  rw [hz, List.map_map]
+  have hsum : ∀ i ∈ List.range g.size,
+      ((fun (p : Int × Nat) => if p.1 = (k : Int) then state.getD (s * g.size + p.2) 0 else 0) ∘ fun (i : Nat) => ((i : Int), i)) i =
+        if i = k then state.getD (s * g.size + i) 0 else 0 := by
+    intro i _
+    simp only [Function.comp]
+    by_cases hik : i = k
+    · simp [hik]
+    · have : ¬ ((i : Int) = (k : Int)) := by omega
+      simp [hik, this]
+  rw [List.map_congr_left hsum, sum_range_ite_eq g.size k hk]
 
 end Strengths
